@@ -979,122 +979,4 @@ theorem deliver_safe (r : Run) (lim : Option Nat) (h : r.Safe) : (deliver r lim)
       · exact Or.inr (by simp [h])
       · exact Or.inr (by simp [h])
 
-/-! ## the work does not grow with the numeric value of an index -/
-
-theorem rangeEnd_le (r : Side) (n : Nat) (e : Int) (h : rangeEnd r n = some e) : e ≤ n := by
-  cases r with
-  | cont => simp only [rangeEnd, Option.some.injEq] at h; omega
-  | some v =>
-    simp only [rangeEnd] at h
-    split at h
-    · simp at h
-    · split at h <;> simp only [Option.some.injEq] at h <;> omega
-
-/-- a resolved range never ends after the last part, whatever the written numbers -/
-theorem tryIntoRange_le (b : UserBounds) (n s e : Nat) (h : b.tryIntoRange n = some (s, e)) :
-    e ≤ n := by
-  unfold UserBounds.tryIntoRange at h
-  split at h
-  · simp at h
-  · split at h
-    · simp at h
-    · rename_i e' he
-      split at h
-      · simp at h
-      · simp only [Option.some.injEq, Prod.mk.injEq] at h
-        have := rangeEnd_le b.r n e' he
-        omega
-
-/-- `unpack` yields at most one bound per existing field: `1:2147483647` on a 3-field record
-    becomes 3 bounds, not two thousand million -/
-theorem unpack_length_le (b : UserBounds) (n : Nat) : (b.unpack n).length ≤ max 1 n := by
-  unfold UserBounds.unpack
-  cases hr : b.tryIntoRange n with
-  | none => simp only [List.length_singleton]; omega
-  | some p =>
-    obtain ⟨s, e⟩ := p
-    have := tryIntoRange_le b n s e hr
-    simp only [List.length_map, List.length_range]
-    omega
-
-theorem unpackBof_length_le (n : Nat) (x : BoF) : (unpackBof n x).length ≤ max 1 n := by
-  cases x with
-  | bound b => simpa [unpackBof] using unpack_length_le b n
-  | filler f => simp only [unpackBof, List.length_singleton]; omega
-
-theorem unpackList_length_le (n : Nat) (l : List BoF) :
-    (l.flatMap (unpackBof n)).length ≤ l.length * max 1 n := by
-  induction l with
-  | nil => simp
-  | cons x t ih =>
-    simp only [List.flatMap_cons, List.length_append, List.length_cons, Nat.succ_mul]
-    have := unpackBof_length_le n x
-    omega
-
-/-- `complement` yields at most two bounds -/
-theorem complement_length_le (b : UserBounds) (n : Nat) (l : List UserBounds)
-    (h : b.complement n = some l) : l.length ≤ 2 := by
-  unfold UserBounds.complement at h
-  simp only [Option.map_eq_some_iff] at h
-  obtain ⟨r, _, rfl⟩ := h
-  obtain ⟨s, e⟩ := r
-  simp only [List.length_map]
-  unfold complementStdRange
-  split <;> split <;> simp
-
-theorem complementBof_length_le (n : Nat) (x : BoF) : (complementBof n x).length ≤ 2 := by
-  cases x with
-  | filler f => simp [complementBof]
-  | bound b =>
-    unfold complementBof
-    cases hc : b.complement n with
-    | none => simp [hc]
-    | some bs => simpa [hc] using complement_length_le b n bs hc
-
-/-! ## the fuel of `trim` never runs out -/
-
-theorem trimStartFuel_fuel_eq (d : Bytes) (hd : d ≠ []) (n : Nat) :
-    ∀ (m : Nat) (l : Bytes), l.length ≤ n → l.length ≤ m →
-      trimStartFuel d n l = trimStartFuel d m l := by
-  induction n with
-  | zero =>
-    intro m l h _
-    have : l = [] := List.eq_nil_of_length_eq_zero (by omega)
-    subst this
-    cases m with
-    | zero => rfl
-    | succ m =>
-      have : d.isPrefixOf ([] : Bytes) = false := by
-        cases d with
-        | nil => exact absurd rfl hd
-        | cons _ _ => rfl
-      simp [trimStartFuel, this]
-  | succ n ih =>
-    intro m l hn hm
-    cases m with
-    | zero =>
-      have : l = [] := List.eq_nil_of_length_eq_zero (by omega)
-      subst this
-      have : d.isPrefixOf ([] : Bytes) = false := by
-        cases d with
-        | nil => exact absurd rfl hd
-        | cons _ _ => rfl
-      simp [trimStartFuel, this]
-    | succ m =>
-      simp only [trimStartFuel]
-      split
-      · rename_i hp
-        have hpl := (List.isPrefixOf_iff_prefix.mp hp).length_le
-        have hdpos : 0 < d.length := List.length_pos_iff.mpr hd
-        have : (l.drop d.length).length < l.length := by
-          simp only [List.length_drop]; omega
-        exact ih m _ (by omega) (by omega)
-      · rfl
-
-/-- the `while buffer[idx..].starts_with(delimiter)` loop terminates: with a non-empty delimiter
-    any fuel ≥ the length of the buffer gives the same result as exactly that much -/
-theorem trimStartFuel_fuel (d : Bytes) (hd : d ≠ []) (n : Nat) (l : Bytes) (h : l.length ≤ n) :
-    trimStartFuel d n l = trimStartFuel d l.length l :=
-  trimStartFuel_fuel_eq d hd n l.length l h (Nat.le_refl _)
-
 end Tuc
